@@ -87,6 +87,22 @@ def gen_history(rng: _pyrandom.Random, max_ops: int = 12, max_rows: int = 40, ma
             else:
                 ops.append({"op": "delint"})
         return {"cfg": cfg, "F": F, "ops": ops}
+    if force == "big2":
+        # two families of more than 255 members each; then the threshold is raised and the largest cluster is broken up:
+        # its members stay singletons next to a cluster that keeps a wide counter
+        F = max(F, 64)
+        cfg["thr"], cfg["crit"], cfg["tol"] = 0.5, rng.choice(["diameter", "radius"]), None
+        pa = [1 if rng.random() < 0.5 else 0 for _ in range(F)]
+        pb = [1 - b if j % 2 == 0 else b for j, b in enumerate(pa)]
+        rows = [[b ^ (1 if rng.random() < 0.02 else 0) for b in pa] for _ in range(rng.choice([300, 320]))] \
+            + [[b ^ (1 if rng.random() < 0.02 else 0) for b in pb] for _ in range(rng.choice([270, 290]))]
+        rng.shuffle(rows)
+        ops = [{"op": "fit", "F": F, "rows": rows, "form": rng.choice(FORMS), "dtype": "uint8"},
+               {"op": "setthr", "thr": rng.choice([0.95, 1.0])},
+               {"op": "refine", "n": 1, "xform": rng.choice(["array", "path", "paths"]), "packed": rng.random() < 0.5}]
+        if "recluster" in allow and rng.random() < 0.5:
+            ops.append({"op": "recluster", "it": 1, "extra": 0.0, "shuffle": rng.random() < 0.5, "seed": rng.randint(0, 10**6), "stop": False})
+        return {"cfg": cfg, "F": F, "ops": ops}
     if wide:
         # a node with more than 255 entries: branching factor 300, near-duplicates that do not merge
         # (64 bits and more, 4-12 % of the bits flipped: practically all rows distinct, so the root really reaches 301 entries)
